@@ -37,12 +37,13 @@ SAFE_PIECES = [r'\(', r'\)', r' and ', r' or ', r'\(id\(', r'\) !=  id\(NOT_FOUN
 
 
 def task_names(tier):
-    return ['pieces', 'grammar_facts', 'grammar_tokens', 'grammar_values', 'literals', 'wrapper', 'evaluation/getpath', 'evaluation/rowloop']
+    return ['pieces', 'grammar_facts', 'grammar_tokens', 'grammar_values', 'literals', 'wrapper', 'evaluation/getpath', 'evaluation/rowloop', 'evaluation/pipeline']
 
 
 def run_task(name, tier):
     if name.startswith('evaluation/'):
-        # evaluating the generated function touches the grid only through _get_path (subscripts and the id lookup; nothing taken from the filter
+        # the source handed to exec is exactly `def NAME(_grid, _entity, _consts=_consts):\n  return <pieces>` - nothing else of the filter text, not even as a
+        # comment (pipeline); evaluating the generated function touches the grid only through _get_path (subscripts and the id lookup; nothing taken from the filter
         # is ever used as an attribute or called) and Grid.filter's row loop leaves the source grid untouched: the C11 tasks of those functions
         from props import C11
         r = C11.run_task(name.split('/', 1)[1], tier)
